@@ -1097,7 +1097,7 @@ theorem gc_where {r : Run} (hi : Inv r) {f : Bool} (hp : r.sys.ph = .gc f) {o : 
 objects are the collection nursery followed (full GC) by the from-space. -/
 theorem release_spec {r : Run} (hi : Inv r) {f : Bool} (hp : r.sys.ph = .gc f) :
     release true r.sys.los f = some (r.sys.los.tm.collectNursery ++ r.sys.los.tm.fromSpace,
-      { r.sys.los with tm := { r.sys.los.tm with collectNursery := [], fromSpace := [] } }) := by
+      { r.sys.los with tm := { r.sys.los.tm with collectNursery := [], fromSpace := [] }, inNurseryGc := false }) := by
   have hA := hi.gcA f hp
   cases f
   · have hF := hi.gcF hp
@@ -1108,7 +1108,7 @@ theorem release_spec {r : Run} (hi : Inv r) {f : Bool} (hp : r.sys.ph = .gc f) :
 theorem inv_release {r : Run} (hi : Inv r) {f : Bool} (hp : r.sys.ph = .gc f) :
     Inv { r with
       sys := { ph := .mutator,
-               los := { r.sys.los with tm := { r.sys.los.tm with collectNursery := [], fromSpace := [] } } },
+               los := { r.sys.los with tm := { r.sys.los.tm with collectNursery := [], fromSpace := [] }, inNurseryGc := false } },
       alive := r.alive.filter (fun x => !(r.sys.los.tm.collectNursery ++ r.sys.los.tm.fromSpace).contains x),
       sweptAll := r.sweptAll ++ (r.sys.los.tm.collectNursery ++ r.sys.los.tm.fromSpace) } := by
   obtain ⟨⟨nf, nt, nc, na, ft, fc, fa, tc, ta, ca⟩, hal, hnd, hms, bA, bT, bC, bF, mutC, mutF, gcA, gcF,
@@ -1448,7 +1448,7 @@ theorem los_sweep_exact (h : List Op) (r0 : Run) (full : Bool) (g : List Op) (r1
   have hstep : runStep r1 (.release full) = some
       { r1 with
         sys := { ph := .mutator,
-                 los := { r1.sys.los with tm := { r1.sys.los.tm with collectNursery := [], fromSpace := [] } } },
+                 los := { r1.sys.los with tm := { r1.sys.los.tm with collectNursery := [], fromSpace := [] }, inNurseryGc := false } },
         alive := r1.alive.filter (fun x => !(r1.sys.los.tm.collectNursery ++ r1.sys.los.tm.fromSpace).contains x),
         sweptAll := r1.sweptAll ++ (r1.sys.los.tm.collectNursery ++ r1.sys.los.tm.fromSpace) } := by
     simp [runStep, sysStep, allowed, hph, release_spec hi1 hph]
@@ -1586,5 +1586,71 @@ example :
     run {} [.alloc 1, .prepare false, .release true] = none ∧
     run {} [.alloc 1, .alloc 1] = none := by
   decide
+
+
+/-! ## `is_live` is exact during a collection (needed by reference / finalizer processing, C06)
+
+On the pinned tree `SFT::is_live` was `is_marked`: in a nursery GC an unreachable young object still
+carries `mark_state` (the state does not flip) and answered "live" although `release` sweeps it
+(`old_is_live_wrong_in_nursery_gc`; real effect: a weak reference kept a dangling referent, key
+`gc:los-nursery-weak-dangling`). After the `fix:` commit `is_live` also requires a cleared nursery bit
+in a nursery GC. -/
+
+/-- `is_live` as a function of the three values it reads. -/
+def liveBits (ms : Nat) (ng : Bool) (b : Nat) : Bool := (b &&& 1 == ms) && !(ng && (b &&& 2 == 2))
+
+theorem isLive_eq (s : LOS) (o : Obj) : isLive s o = liveBits s.markState s.inNurseryGc (s.bits o) := rfl
+
+theorem liveBits_facts (ms : Nat) (h : ms ≤ 1) (ng : Bool) :
+    liveBits ms ng ms = true ∧ liveBits ms true (ms ||| 2) = false ∧
+    liveBits ms false ((1 - ms) ||| 2) = false ∧ liveBits ms ng (1 - ms) = false := by
+  rcases ms_cases h with rfl | rfl <;> cases ng <;> decide
+
+/-- **`is_live` exact**: at any point of a collection (any number of traces done), an object of the
+space is reported live iff it is in the to-space — i.e. iff `release` will not sweep it. -/
+theorem los_is_live_exact {r : Run} (hi : Inv r) {f : Bool} (hp : r.sys.ph = .gc f) {o : Obj}
+    (ho : o ∈ allObjs r.sys.los.tm) :
+    isLive r.sys.los o = true ↔ o ∈ r.sys.los.tm.toSpace := by
+  have hng := hi.gcNg f hp
+  have hf := liveBits_facts r.sys.los.markState hi.ms r.sys.los.inNurseryGc
+  rw [isLive_eq]
+  constructor
+  · intro hl
+    rcases gc_where hi hp ho with hc | ⟨hff, hF⟩ | hT
+    · exfalso
+      have hb := hi.bC o hc
+      rw [hb, hp] at hl
+      cases f
+      · simp only [youngMark] at hl
+        rw [hng] at hl
+        have := (liveBits_facts r.sys.los.markState hi.ms true).2.1
+        simp at hl this; rw [this] at hl; cases hl
+      · simp only [youngMark] at hl
+        rw [hng] at hl
+        have := (liveBits_facts r.sys.los.markState hi.ms false).2.2.1
+        simp at hl this; rw [this] at hl; cases hl
+    · exfalso
+      have hb := hi.bF o hF
+      rw [hb, hf.2.2.2] at hl; cases hl
+    · exact hT
+  · intro hT
+    rw [hi.bT o hT]; exact hf.1
+
+/-- … hence `is_live` answers exactly "not swept by this collection's `release`". -/
+theorem los_is_live_iff_not_swept {r : Run} (hi : Inv r) {f : Bool} (hp : r.sys.ph = .gc f) {o : Obj}
+    (ho : o ∈ allObjs r.sys.los.tm) :
+    isLive r.sys.los o = true ↔ o ∉ r.sys.los.tm.collectNursery ++ r.sys.los.tm.fromSpace := by
+  rw [los_is_live_exact hi hp ho]
+  obtain ⟨nf, nt, nc, na, ft, fc, fa, tc, ta, ca⟩ := hi.disj
+  constructor
+  · intro hT hm
+    rcases List.mem_append.mp hm with h | h
+    · exact tc o hT h
+    · exact ft o h hT
+  · intro hn
+    rcases gc_where hi hp ho with hc | ⟨_, hF⟩ | hT
+    · exact absurd (List.mem_append.mpr (.inl hc)) hn
+    · exact absurd (List.mem_append.mpr (.inr hF)) hn
+    · exact hT
 
 end Mmtk.LOS
